@@ -29,6 +29,23 @@ def specDecode (t : Ty) (orig : Option Val) (data : Bytes) : String :=
       | none => ""
     s!"ok {hex (encode Spec.codec t v)} {data.length - r.length}{eq}"
 
+/-- one type of an `xpkg` case: Marshal, then Unmarshal of the bytes.  A function of the type and the
+    value alone (the model has no cache: the field order is `fieldOrder` of the type's own tags). -/
+def xpkgOne (tys vs : String) : String :=
+  match parseTy tys with
+  | none => "bad-op"
+  | some g =>
+    match parseVal g vs with
+    | none => "bad-op"
+    | some v =>
+      let t := g.toTy
+      match C11.marshalGo t v with
+      | none => "panic"
+      | some enc =>
+        match (C12.decodeA t enc).res with
+        | none => s!"{hex enc}|err"
+        | some (w, _) => s!"{hex enc}|ok:{hex (encode Spec.codec t w)}"
+
 def step (line : String) : String :=
   match words line with
   | ["e", tys, vs, sfx] =>
@@ -55,6 +72,7 @@ def step (line : String) : String :=
             let kf := if enc ≠ specEnc then "opt-vdt" else if C12.hasMidUint t v then "uint-5to7" else "none"
             s!"{model}\tspec={spec}\tkf={kf}"
       | _, _ => "bad-op"
+  | ["xpkg", _, _, da, va, db, vb] => s!"a={xpkgOne da va} b={xpkgOne db vb} c={xpkgOne da va}"
   | ["menc", kts, vts, vals] => ScaleMap.stepEnc kts vts vals
   | ["mrt", kts, vts, vals] => ScaleMap.stepRt kts vts vals
   | ["order", tys] =>
